@@ -333,26 +333,25 @@ theorem extractKWA_trailing_aggregate (cmd : List Bytes) (i : Nat)
     · exact Or.inr ⟨_, rfl⟩
     · exact Or.inl ⟨_, rfl⟩
 
-/-- **No option suffix makes ZINTER / ZUNION panic**: for every argument vector whose command word is not itself an
-    option word (the dispatcher guarantees that), every context and every state, the run ends in a reply, an error
-    or outside the modelled domain — never in a Go panic. -/
-theorem zinter_zunion_never_panic (inter : Bool) (c : Ctx) (cmd : List Bytes) (s : State)
+/-- **No argument vector makes ZINTER / ZUNION / ZINTERSTORE / ZUNIONSTORE panic**: for every command whose
+    command word is not itself an option word (the dispatcher guarantees that: it is one of the four names), every
+    context and every state, the run ends in a reply, an error or outside the modelled domain — never in a Go panic.
+    (The STORE forms used to delete the command word too when the destination was spelled like it, so that
+    `ZUNIONSTORE zunionstore weights` parsed `[weights]` and sliced `cmd[1:0]`; repaired upstream: only arguments
+    are deleted.) -/
+theorem zcombine_never_panic (inter store : Bool) (c : Ctx) (cmd : List Bytes) (s : State)
     (hh : isModifierTok (cmd.headD []) = false) (w : String) :
-    ((handleZCombine inter false c cmd).run c s).2 ≠ .panic w :=
-  zNoPanic_run c _ s (handleZCombine_noPanic inter false c cmd hh (fun h => by cases h)) w
+    ((handleZCombine inter store c cmd).run c s).2 ≠ .panic w :=
+  zNoPanic_run c _ s (handleZCombine_noPanic inter store c cmd hh) w
 
-/-- **… nor ZINTERSTORE / ZUNIONSTORE**, provided the destination is not spelled like the command word (the handler
-    deletes every token equal to the destination from the command before parsing it — class
-    `zstore-destination-dropped-from-operands` — so `ZUNIONSTORE zunionstore weights` parses `[weights]`). -/
-theorem zinterstore_zunionstore_never_panic (inter : Bool) (c : Ctx) (cmd : List Bytes) (s : State)
-    (hh : isModifierTok (cmd.headD []) = false) (hd : cmd.headD [] ≠ cmd.getD 1 []) (w : String) :
-    ((handleZCombine inter true c cmd).run c s).2 ≠ .panic w :=
-  zNoPanic_run c _ s (handleZCombine_noPanic inter true c cmd hh (fun _ => hd)) w
+/-- the four command words satisfy the hypothesis -/
+example : isModifierTok (b "zinter") = false ∧ isModifierTok (b "zunion") = false ∧
+    isModifierTok (b "ZINTERSTORE") = false ∧ isModifierTok (b "zunionstore") = false := by decide
 
-/-- the proviso on the destination is needed: the filtered command starts with an option word -/
-theorem zstore_destination_is_command_word_witness :
-    ((handleZCombine false true c0 [b "zunionstore", b "zunionstore", b "weights"]).run c0 (st [])).2
-      = .panic "slice bounds out of range [1:0]" := by decide
+/-- regression input: a destination spelled like the command word — the command word is kept, the command reads as
+    ZUNIONSTORE dest WEIGHTS (no source keys: class `zunionstore-without-source-keys-accepted`) and answers 0 -/
+example : ((handleZCombine false true c0 [b "zunionstore", b "zunionstore", b "weights"]).run c0 (st [])).2
+    = .done (.ok (intReply 0)) := by decide
 
 /-- non-vacuity and the regression inputs: the four commands with AGGREGATE (or WEIGHTS … AGGREGATE) as the last
     token answer the syntax error and leave the (empty) state alone -/
